@@ -12,9 +12,11 @@
 package main
 
 import (
+	"bytes"
 	"context"
 	"crypto/sha256"
 	"encoding/hex"
+	"encoding/json"
 	"fmt"
 	"go/ast"
 	"go/parser"
@@ -22,6 +24,7 @@ import (
 	"io"
 	"log/slog"
 	"os"
+	"os/exec"
 	"path/filepath"
 	"regexp"
 	"sort"
@@ -32,8 +35,10 @@ import (
 	api_v1 "k8s.io/api/core/v1"
 	networking "k8s.io/api/networking/v1"
 	meta_v1 "k8s.io/apimachinery/pkg/apis/meta/v1"
+	"k8s.io/apimachinery/pkg/types"
 
 	"github.com/nginx/kubernetes-ingress/internal/configs"
+	"github.com/nginx/kubernetes-ingress/internal/k8s"
 	"github.com/nginx/kubernetes-ingress/internal/k8s/secrets"
 	nl "github.com/nginx/kubernetes-ingress/internal/logger"
 	"github.com/nginx/kubernetes-ingress/internal/metrics/collectors"
@@ -107,7 +112,22 @@ type Case struct {
 	NS     []int   `json:"ns_bytes,omitempty"`   // names family: arbitrary bytes
 	Name   []int   `json:"name_bytes,omitempty"` // names family
 	MOps   []MOp   `json:"mops,omitempty"`       // mgr family
-	Obs    any     `json:"obs"`
+	NS2    []int   `json:"ns2_bytes,omitempty"`  // namepair family: the second identity
+	Name2  []int   `json:"name2_bytes,omitempty"`
+	// Isolate: run the history in a child process, because the code under test may end the process
+	// (LocalManager calls Fatalf when a file cannot be created, e.g. a name beyond NAME_MAX)
+	Script   []NEvent   `json:"script,omitempty"`   // nsl family
+	Expect   [][]Res    `json:"expect,omitempty"`   // nsl: per drain, what must be served
+	Unserved [][]NCause `json:"unserved,omitempty"` // nsl: per drain, every known identity that must not be served, and why
+	Isolate  bool       `json:"isolate,omitempty"`
+	Fatal    *FatalObs  `json:"fatal,omitempty"`
+	Obs      any        `json:"obs"`
+}
+
+// FatalObs: the process running the history ended (os.Exit) while executing event At; Obs holds the steps before it.
+type FatalObs struct {
+	At   int `json:"at"`
+	Exit int `json:"exit"`
 }
 
 // MOp is one call of a LocalManager file method. Fam: conf | stream | hosts | main | secret | dhparam | ap.
@@ -486,6 +506,13 @@ func runHist(work, repo string, c *Case) {
 	}
 	in.cnf.EnableReloads()
 	obs := make([]StepObs, 0, len(c.Events))
+	var progress *os.File
+	if pf := os.Getenv("VERIF_C10_PROGRESS"); pf != "" {
+		progress, _ = os.OpenFile(pf, os.O_CREATE|os.O_WRONLY|os.O_APPEND, 0o644)
+		if progress != nil {
+			defer progress.Close()
+		}
+	}
 	for _, e := range c.Events {
 		var errc, pan string
 		func() {
@@ -506,8 +533,58 @@ func runHist(work, repo string, c *Case) {
 		o := observe(in)
 		o.Err, o.Panic = errc, pan
 		obs = append(obs, o)
+		if progress != nil {
+			if b, err := json.Marshal(o); err == nil {
+				progress.Write(append(b, '\n'))
+				progress.Sync()
+			}
+		}
 	}
 	c.Obs = obs
+}
+
+// runIsolated runs one history in a child process (the same binary, -replay of a one-case file) and, when the
+// child ends abnormally, keeps the steps it completed and records where it died.
+func runIsolated(work string, c *Case) {
+	dir, err := os.MkdirTemp(work, fmt.Sprintf("iso%d-", c.ID))
+	if err != nil {
+		c.Obs = map[string]any{"error": err.Error()}
+		return
+	}
+	defer os.RemoveAll(dir)
+	one := *c
+	one.Isolate = false
+	b, _ := json.Marshal(map[string]any{"cases": []Case{one}})
+	in, out, prog := filepath.Join(dir, "in.json"), filepath.Join(dir, "out.jsonl"), filepath.Join(dir, "progress.jsonl")
+	os.WriteFile(in, b, 0o644)
+	cmd := exec.Command(os.Args[0], "-replay", in, "-out", out)
+	cmd.Env = append(os.Environ(), "VERIF_C10_PROGRESS="+prog, "VERIF_C10_CHILD=1")
+	runErr := cmd.Run()
+	if runErr == nil {
+		if ob, err := os.ReadFile(out); err == nil {
+			var got Case
+			if json.Unmarshal(bytes.TrimSpace(ob), &got) == nil {
+				c.Obs = got.Obs
+				return
+			}
+		}
+		c.Obs = map[string]any{"error": "isolated run produced no output"}
+		return
+	}
+	code := -1
+	if ee, ok := runErr.(*exec.ExitError); ok {
+		code = ee.ExitCode()
+	}
+	steps := []json.RawMessage{}
+	if pb, err := os.ReadFile(prog); err == nil {
+		for _, line := range bytes.Split(pb, []byte("\n")) {
+			if len(bytes.TrimSpace(line)) > 0 {
+				steps = append(steps, json.RawMessage(append([]byte{}, line...)))
+			}
+		}
+	}
+	c.Obs = steps
+	c.Fatal = &FatalObs{At: len(steps), Exit: code}
 }
 
 // ---------- mgr family: the file methods of the real LocalManager, whole root listed after every call ----------
@@ -637,6 +714,465 @@ func runNames(work, repo string, c *Case) {
 		"ts": vh.Bytes(o.TS), "ts_key": vh.Bytes(o.TSKey), "key": vh.Bytes(o.Key)}
 }
 
+// ---------- nsl family: namespace life cycle through the real LoadBalancerController.sync ----------
+
+// NEvent: op is put | del | unlabel | drain.  put/del change the cluster; when the namespace still has informers
+// the informer store is updated at once and the task is queued (FIFO, one entry per key as in the work queue);
+// unlabel removes the namespace from the labelled store and queues its task; drain lets the worker empty the queue.
+type NEvent struct {
+	Op string `json:"op"`
+	NS string `json:"ns,omitempty"` // unlabel
+	R  *NRes  `json:"r,omitempty"`
+}
+
+// NRes is an object of the cluster. Kind: ing | vs | ts (ts: TLS passthrough with host pt<idx>).
+type NRes struct {
+	Kind    string `json:"kind"`
+	NS      string `json:"ns"`
+	Name    string `json:"name"`
+	Stamp   int    `json:"stamp"`
+	Class   string `json:"class"`
+	Invalid bool   `json:"invalid,omitempty"`
+	Host    string `json:"host,omitempty"`
+}
+
+type NCause struct {
+	Kind  string `json:"kind"`
+	NS    string `json:"ns"`
+	Name  string `json:"name"`
+	Cause string `json:"cause"`
+}
+
+type NObs struct {
+	Confd   []FileObs   `json:"confd"`
+	Stream  []FileObs   `json:"stream"`
+	Hosts   [][2]string `json:"hosts"`
+	Served  []string    `json:"served"`  // what the Configuration holds
+	Watched []string    `json:"watched"` // namespaces with informers
+	Panic   string      `json:"panic,omitempty"`
+}
+
+func nslObject(r NRes) interface{} {
+	base := Res{Kind: r.Kind, NS: r.NS, Name: r.Name, Stamp: r.Stamp, PT: true, Host: r.Host}
+	om := func(m *meta_v1.ObjectMeta) {
+		m.Generation = int64(r.Stamp)
+		m.UID = types.UID(r.Kind + "/" + r.NS + "/" + r.Name)
+		m.CreationTimestamp = meta_v1.NewTime(time.Unix(1700000000, 0))
+	}
+	switch r.Kind {
+	case "ing":
+		ing := ingEx(base).Ingress
+		delete(ing.Annotations, "kubernetes.io/ingress.class")
+		class := r.Class
+		ing.Spec.IngressClassName = &class
+		pt := networking.PathTypePrefix
+		ing.Spec.Rules[0].HTTP.Paths[0].PathType = &pt
+		if r.Invalid {
+			ing.Spec.Rules[0].Host = ""
+		}
+		om(&ing.ObjectMeta)
+		return ing
+	case "vs":
+		vs := vsEx(base).VirtualServer
+		vs.Spec.IngressClass = r.Class
+		if r.Invalid {
+			vs.Spec.Host = ""
+		}
+		om(&vs.ObjectMeta)
+		return vs
+	default:
+		ts := tsEx(base).TransportServer
+		ts.Spec.IngressClass = r.Class
+		if r.Invalid {
+			ts.Spec.Action = nil
+		}
+		om(&ts.ObjectMeta)
+		return ts
+	}
+}
+
+type nslTask struct{ kind, key string }
+
+func runNsl(work, repo string, c *Case) {
+	root, err := os.MkdirTemp(work, fmt.Sprintf("n%d-", c.ID))
+	if err != nil {
+		c.Obs = map[string]any{"error": err.Error()}
+		return
+	}
+	defer os.RemoveAll(root)
+	for _, d := range []string{"conf.d", "stream-conf.d", "secrets", "state_files"} {
+		os.MkdirAll(filepath.Join(root, d), 0o755)
+	}
+	in, err := start(root, repo, false)
+	if err != nil {
+		c.Obs = map[string]any{"error": err.Error()}
+		return
+	}
+	in.cnf.EnableReloads()
+	ctl := k8s.VerifC10NewCtl(in.cnf)
+	nss := map[string]bool{}
+	for _, e := range c.Script {
+		if e.R != nil {
+			nss[e.R.NS] = true
+		}
+	}
+	labelled := map[string]bool{}
+	for ns := range nss {
+		if err := ctl.WatchNamespace(ns); err != nil {
+			c.Obs = map[string]any{"error": err.Error()}
+			return
+		}
+		labelled[ns] = true
+	}
+	type lastEv struct {
+		what   string
+		behind bool
+	}
+	cluster := map[string]NRes{}
+	var order []string // every identity ever seen
+	last := map[string]lastEv{}
+	var queue []nslTask
+	pendingNs := map[string]bool{}
+	enqueue := func(t nslTask) {
+		for _, q := range queue {
+			if q == t {
+				return
+			}
+		}
+		queue = append(queue, t)
+	}
+	obs := []NObs{}
+	c.Expect, c.Unserved = nil, nil
+	for _, e := range c.Script {
+		switch e.Op {
+		case "put":
+			r := *e.R
+			k := rkey(r.Kind, r.NS, r.Name)
+			what := "updated"
+			if old, ok := cluster[k]; !ok {
+				order = append(order, k)
+				what = "created"
+			} else if old.Class != r.Class {
+				what = "class-changed"
+			} else if r.Invalid && !old.Invalid {
+				what = "invalidated"
+			}
+			cluster[k] = r
+			if ctl.StorePut(r.Kind, r.NS, nslObject(r)) {
+				enqueue(nslTask{r.Kind, r.NS + "/" + r.Name})
+				last[k] = lastEv{what, pendingNs[r.NS]}
+			}
+		case "del":
+			r := *e.R
+			k := rkey(r.Kind, r.NS, r.Name)
+			if _, ok := cluster[k]; !ok {
+				continue
+			}
+			delete(cluster, k)
+			if ctl.Watched(r.NS) {
+				ctl.StoreDelete(r.Kind, r.NS, r.NS+"/"+r.Name)
+				enqueue(nslTask{r.Kind, r.NS + "/" + r.Name})
+				last[k] = lastEv{"deleted", pendingNs[r.NS]}
+			}
+		case "unlabel":
+			if labelled[e.NS] {
+				labelled[e.NS] = false
+				ctl.Unlabel(e.NS)
+				enqueue(nslTask{"ns", e.NS})
+				pendingNs[e.NS] = true
+			}
+		case "drain":
+			o := NObs{}
+			func() {
+				defer func() {
+					if r := recover(); r != nil {
+						o.Panic = fmt.Sprint(r)
+						if len(o.Panic) > 200 {
+							o.Panic = o.Panic[:200]
+						}
+					}
+				}()
+				for len(queue) > 0 {
+					t := queue[0]
+					queue = queue[1:]
+					if t.kind == "ns" {
+						delete(pendingNs, t.key)
+					}
+					ctl.Sync(t.kind, t.key)
+				}
+			}()
+			queue = nil
+			full := observe(in)
+			o.Confd, o.Stream, o.Hosts = full.Confd, full.Stream, full.Hosts
+			o.Served, o.Watched = ctl.Served(), ctl.WatchedNamespaces()
+			obs = append(obs, o)
+			var exp []Res
+			var uns []NCause
+			for _, k := range order {
+				r, exists := cluster[k]
+				id := strings.SplitN(k[2:], "/", 2)
+				kind := map[byte]string{'i': "ing", 'v': "vs", 't': "ts"}[k[0]]
+				le := last[k]
+				switch {
+				case exists && labelled[r.NS] && r.Class == "nginx" && !r.Invalid:
+					exp = append(exp, Res{Kind: r.Kind, NS: r.NS, Name: r.Name, Stamp: r.Stamp, PT: r.Kind == "ts", Host: r.Host})
+				case le.behind:
+					uns = append(uns, NCause{kind, id[0], id[1], le.what + "-behind-namespace-task"})
+				case !exists:
+					uns = append(uns, NCause{kind, id[0], id[1], "deleted"})
+				case !labelled[r.NS]:
+					uns = append(uns, NCause{kind, id[0], id[1], "namespace-unlabelled"})
+				case r.Class != "nginx":
+					uns = append(uns, NCause{kind, id[0], id[1], "foreign-class"})
+				default:
+					uns = append(uns, NCause{kind, id[0], id[1], "invalid"})
+				}
+			}
+			c.Expect = append(c.Expect, exp)
+			c.Unserved = append(c.Unserved, uns)
+		}
+	}
+	c.Obs = obs
+}
+
+func genNsl(r *vh.Rng, id int) Case {
+	c := Case{Fam: "nsl", ID: id, Class: "nsl"}
+	stamp := 0
+	type idn struct{ kind, ns, name string }
+	var ids []idn
+	cur := map[idn]NRes{}
+	nss := []string{"apps", "keep"}
+	if r.Chance(1, 3) {
+		nss = append(nss, "a-b")
+	}
+	tsn := 0
+	mk := func(i idn, class string, invalid bool) NRes {
+		stamp++
+		res := NRes{Kind: i.kind, NS: i.ns, Name: i.name, Stamp: stamp, Class: class, Invalid: invalid}
+		if old, ok := cur[i]; ok {
+			res.Host = old.Host
+		} else if i.kind == "ts" {
+			res.Host = fmt.Sprintf("pt%d.example.com", tsn)
+			tsn++
+		}
+		cur[i] = res
+		return res
+	}
+	put := func(res NRes) { x := res; c.Script = append(c.Script, NEvent{Op: "put", R: &x}) }
+	for _, ns := range nss {
+		for k := 0; k < 2+r.Intn(3); k++ {
+			i := idn{vh.Pick(r, []string{"ing", "vs", "ts"}), ns, vh.Pick(r, []string{"cafe", "shop", "b-c", "x.y", "web"})}
+			if _, ok := cur[i]; ok {
+				continue
+			}
+			ids = append(ids, i)
+			put(mk(i, "nginx", false))
+		}
+	}
+	c.Script = append(c.Script, NEvent{Op: "drain"})
+	change := func() {
+		i := vh.Pick(r, ids)
+		old, exists := cur[i]
+		switch k := r.Intn(10); {
+		case k < 3 && exists:
+			put(mk(i, "other", old.Invalid)) // moved to another ingress class
+		case k < 5 && exists:
+			x := old
+			delete(cur, i)
+			c.Script = append(c.Script, NEvent{Op: "del", R: &x})
+		case k < 7 && exists:
+			put(mk(i, old.Class, true)) // spec becomes invalid
+		default:
+			put(mk(i, "nginx", false)) // (re)created or updated, valid, own class
+		}
+	}
+	unl := 0
+	for w := 0; w < 1+r.Intn(2); w++ {
+		for k := 0; k < r.Intn(3); k++ {
+			change()
+		}
+		if unl < len(nss)-1 && r.Chance(4, 5) {
+			c.Script = append(c.Script, NEvent{Op: "unlabel", NS: nss[unl]})
+			unl++
+		}
+		for k := 0; k < r.Intn(4); k++ {
+			change()
+		}
+		c.Script = append(c.Script, NEvent{Op: "drain"})
+	}
+	return c
+}
+
+func nslWitnesses(id *int) []Case {
+	base := func() []NEvent {
+		return []NEvent{
+			{Op: "put", R: &NRes{Kind: "ing", NS: "apps", Name: "cafe", Stamp: 1, Class: "nginx"}},
+			{Op: "put", R: &NRes{Kind: "vs", NS: "apps", Name: "shop", Stamp: 2, Class: "nginx"}},
+			{Op: "put", R: &NRes{Kind: "ts", NS: "apps", Name: "secure", Stamp: 3, Class: "nginx", Host: "pt0.example.com"}},
+			{Op: "put", R: &NRes{Kind: "vs", NS: "keep", Name: "shop", Stamp: 4, Class: "nginx"}},
+			{Op: "drain"}}
+	}
+	three := func(stamp int, class string, invalid bool) []NEvent {
+		return []NEvent{
+			{Op: "put", R: &NRes{Kind: "ing", NS: "apps", Name: "cafe", Stamp: stamp, Class: class, Invalid: invalid}},
+			{Op: "put", R: &NRes{Kind: "vs", NS: "apps", Name: "shop", Stamp: stamp + 1, Class: class, Invalid: invalid}},
+			{Op: "put", R: &NRes{Kind: "ts", NS: "apps", Name: "secure", Stamp: stamp + 2, Class: class, Invalid: invalid, Host: "pt0.example.com"}}}
+	}
+	dels := []NEvent{
+		{Op: "del", R: &NRes{Kind: "ing", NS: "apps", Name: "cafe"}}, {Op: "del", R: &NRes{Kind: "vs", NS: "apps", Name: "shop"}},
+		{Op: "del", R: &NRes{Kind: "ts", NS: "apps", Name: "secure"}}}
+	unl := []NEvent{{Op: "unlabel", NS: "apps"}}
+	drain := []NEvent{{Op: "drain"}}
+	cat := func(xs ...[]NEvent) []NEvent {
+		var out []NEvent
+		for _, x := range xs {
+			out = append(out, x...)
+		}
+		return out
+	}
+	mk := func(class string, script []NEvent) Case {
+		c := Case{Fam: "nsl", ID: *id, Class: class, Script: script}
+		*id++
+		return c
+	}
+	return []Case{
+		mk("nsl-unlabel", cat(base(), unl, drain)),
+		mk("nsl-class-behind", cat(base(), unl, three(10, "other", false), drain)),
+		mk("nsl-class-before", cat(base(), three(10, "other", false), unl, drain)),
+		mk("nsl-invalid-behind", cat(base(), unl, three(10, "nginx", true), drain)),
+		mk("nsl-update-behind", cat(base(), unl, three(10, "nginx", false), drain)),
+		mk("nsl-delete-before", cat(base(), dels, unl, drain)),
+		mk("nsl-delete-behind", cat(base(), unl, dels, drain)),
+	}
+}
+
+// ---------- namepair family: two identities, the real naming functions on both ----------
+
+func nameObs(ns, name string) map[string]any {
+	key := configs.VerifC10NamespaceNameKey(ns, name)
+	return map[string]any{"ing": vh.Bytes(configs.VerifC10IngressFileName(ns, name)), "ing_key": vh.Bytes(configs.VerifC10KeyToFileName(key)),
+		"vs": vh.Bytes(configs.VerifC10VSFileName(ns, name)), "vs_key": vh.Bytes(configs.VerifC10VSFileNameFromKey(key)),
+		"ts": vh.Bytes(configs.VerifC10TSFileName(ns, name)), "ts_key": vh.Bytes(configs.VerifC10TSFileNameFromKey(key)),
+		"key": vh.Bytes(key)}
+}
+
+func runNamePair(c *Case) {
+	c.Obs = map[string]any{"a": nameObs(fromInts(c.NS), fromInts(c.Name)), "b": nameObs(fromInts(c.NS2), fromInts(c.Name2))}
+}
+
+// longLegal: a DNS-1123 subdomain of exactly n bytes (labels of at most 63 bytes)
+func longLegal(r *vh.Rng, n int) string {
+	b := make([]byte, n)
+	run := 0
+	for i := range b {
+		last := i == n-1
+		switch {
+		case run >= 60 && !last && i > 0 && b[i-1] != '.' && b[i-1] != '-':
+			b[i], run = '.', 0
+			continue
+		case i == 0 || last || b[i-1] == '.':
+			b[i] = "abcxyz019"[r.Intn(9)]
+		case r.Chance(1, 12) && i+1 < n-1:
+			b[i] = '-'
+		default:
+			b[i] = "abcxyz019"[r.Intn(9)]
+		}
+		if i > 0 && b[i-1] == '-' && last {
+			b[i] = 'a'
+		}
+		run++
+	}
+	// no "-." or ".-" : a '-' is never followed by '.', because '.' is only placed after an alphanumeric
+	return string(b)
+}
+
+// longPair: two different DNS-legal names of total length n sharing their first n-d bytes
+func longPair(r *vh.Rng, n, d int) (string, string) {
+	a := longLegal(r, n)
+	bb := []byte(a)
+	if d > n {
+		d = n
+	}
+	i := n - 1 - r.Intn(d)
+	c := byte('q')
+	if bb[i] == 'q' {
+		c = 'r'
+	}
+	if bb[i] == '.' || (i > 0 && bb[i-1] == '.') || (i+1 < n && bb[i+1] == '.') {
+		i = n - 1
+		if bb[i] == 'q' {
+			c = 'r'
+		}
+	}
+	bb[i] = c
+	return a, string(bb)
+}
+
+func genNamePair(r *vh.Rng, id int) Case {
+	c := Case{Fam: "namepair", ID: id}
+	ns := legalName(r, false)
+	if r.Chance(1, 3) {
+		ns = strings.ReplaceAll(longLegal(r, 20+r.Intn(44)), ".", "a")
+	}
+	switch k := r.Intn(10); {
+	case k < 6:
+		// long names with a long common prefix, around and beyond what a file name can hold
+		c.Class = "long-common-prefix"
+		n := vh.Pick(r, []int{253, 253, 252, 250, 247, 246, 245, 240, 200})
+		if r.Chance(1, 3) {
+			n = 150 + r.Intn(104)
+		}
+		a, b := longPair(r, n, 1+r.Intn(12))
+		c.NS, c.Name, c.NS2, c.Name2 = vh.Bytes(ns), vh.Bytes(a), vh.Bytes(ns), vh.Bytes(b)
+	case k < 8:
+		c.Class = "long-other-namespace"
+		a := longLegal(r, 200+r.Intn(54))
+		c.NS, c.Name, c.NS2, c.Name2 = vh.Bytes(ns), vh.Bytes(a), vh.Bytes(ns+"x"), vh.Bytes(a)
+	default:
+		c.Class = "short"
+		c.NS, c.Name, c.NS2, c.Name2 = vh.Bytes(ns), vh.Bytes(legalName(r, true)), vh.Bytes(legalName(r, false)), vh.Bytes(legalName(r, true))
+	}
+	return c
+}
+
+// genLong: histories over resources with names at and beyond the length a file name can hold, run in a
+// child process.  vs_<ns>_<name>.conf is 9+len(ns)+len(name) bytes, <ns>-<name>.conf is 6+len(ns)+len(name).
+func genLong(r *vh.Rng, id int) Case {
+	g := &gen{r: r, served: map[string]Res{}}
+	ns := vh.Pick(r, []string{"team-a", "a", "default"})
+	c := Case{Fam: "hist", ID: id, Isolate: true, Plus: r.Chance(1, 4)}
+	var total int
+	switch k := r.Intn(10); {
+	case k < 4:
+		c.Class, total = "long-fits", 255-r.Intn(3) // the longest names that still fit
+	case k < 7:
+		c.Class, total = "long-over", 256+r.Intn(3) // just beyond
+	default:
+		c.Class, total = "long-max", 0 // 253-byte names
+	}
+	mk := func(kind string) (ident, ident) {
+		over := 9
+		if kind == "ing" {
+			over = 6
+		}
+		n := total - over - len(ns)
+		if total == 0 || n > 253 {
+			n = 253
+		}
+		a, b := longPair(r, n, 1+r.Intn(8))
+		return ident{ns, a}, ident{ns, b}
+	}
+	i1, i2 := mk("ing")
+	v1, v2 := mk("vs")
+	t1, t2 := mk("ts")
+	g.ings, g.vss, g.tss = []ident{i1, i2, {ns, "short"}}, []ident{v1, v2, {ns, "short"}}, []ident{t1, t2, {ns, "short"}}
+	n := 4 + r.Intn(6)
+	for i := 0; i < n; i++ {
+		c.Events = append(c.Events, g.event())
+	}
+	return c
+}
+
 // ---------- startup family: which Manager methods the start-up code of main.go calls ----------
 
 // The restart model rests on: between process start and the first sync nothing removes files from
@@ -741,7 +1277,15 @@ func main() {
 			}()
 			switch c.Fam {
 			case "hist":
-				runHist(dir, repo, c)
+				if c.Isolate && os.Getenv("VERIF_C10_CHILD") == "" {
+					runIsolated(dir, c)
+				} else {
+					runHist(dir, repo, c)
+				}
+			case "namepair":
+				runNamePair(c)
+			case "nsl":
+				runNsl(dir, repo, c)
 			case "names":
 				runNames(dir, repo, c)
 			case "mgr":
@@ -1241,6 +1785,16 @@ func witnesses(id *int) []Case {
 		mk("witness-change-back", add("ing", "a", "i", 1), add("vs", "a", "v", 2), add("ts", "a", "t", 3),
 			add("ing", "a", "i", 4), add("vs", "a", "v", 5), add("ts", "a", "t", 6),
 			add("ing", "a", "i", 1), add("vs", "a", "v", 2), add("ts", "a", "t", 3)),
+		// two 253-byte names of one namespace differing in the last byte: a file each (if a file can be created at all)
+		func() Case {
+			a := strings.Repeat("abcdefghi.", 25) + "ab1"
+			b := strings.Repeat("abcdefghi.", 25) + "ab2"
+			c := mk("witness-long-pair", add("vs", "team-a", a, 1), add("vs", "team-a", b, 2), add("ts", "team-a", a, 3), add("ts", "team-a", b, 4),
+				add("ing", "team-a", a, 5), add("ing", "team-a", b, 6),
+				Event{Op: "del", Kind: "vs", NS: "team-a", Name: a}, Event{Op: "del", Kind: "ts", NS: "team-a", Name: a}, Event{Op: "del", Kind: "ing", NS: "team-a", Name: a})
+			c.Isolate = true
+			return c
+		}(),
 		// the same key as Ingress, VS and TS; delete one at a time
 		mk("witness-same-key", add("ing", "a", "b", 1), add("vs", "a", "b", 2), addPT("a", "b", 3, true, "pt0.example.com"),
 			Event{Op: "del", Kind: "vs", NS: "a", Name: "b"}, Event{Op: "del", Kind: "ing", NS: "a", Name: "b"}, Event{Op: "del", Kind: "ts", NS: "a", Name: "b"}),
@@ -1351,6 +1905,19 @@ func generate(a vh.Args) []Case {
 	}
 	for i := 0; i < a.N/60+2; i++ {
 		cases = append(cases, genEveryPoint(root.Fork(uint64(id)+1<<32), &id)...)
+	}
+	cases = append(cases, nslWitnesses(&id)...)
+	for i := 0; i < a.N/8+10; i++ {
+		cases = append(cases, genNsl(root.Fork(uint64(id)+5<<32), id))
+		id++
+	}
+	for i := 0; i < a.N/25+6; i++ {
+		cases = append(cases, genLong(root.Fork(uint64(id)+3<<32), id))
+		id++
+	}
+	for i := 0; i < a.N/4+20; i++ {
+		cases = append(cases, genNamePair(root.Fork(uint64(id)+4<<32), id))
+		id++
 	}
 	for i := 0; i < a.N/2+20; i++ {
 		cases = append(cases, genNames(root.Fork(uint64(id)), id))
